@@ -23,6 +23,19 @@ def install(ctx):
     harness.import_all_repo_modules()
     import io_drawer.dump as dump
     o_il, o_tr, o_dd = dump.parse_ilog_data, dump.parse_trace_data, dump.parse_dump_data
+    # four-character constants the decoders themselves carry, other than the six buffer names: decoy names after a header start
+    import sys
+    from vf import iogen, iomodels
+    carried = harness.harvest_constants(
+        [m for m in sys.modules if m.startswith("io_drawer")],
+        lambda v: isinstance(v, (str, bytes)) and len(v) == 4 and (v if isinstance(v, str) else v.decode("latin-1")).isalnum())
+    carried = sorted({(v if isinstance(v, str) else v.decode("latin-1")) for v in carried} - set(iomodels.BUFFER_NAMES))
+    for nm in carried:
+        if nm.isascii() and nm not in iogen.OTHER_NAMES:
+            iogen.OTHER_NAMES.append(nm)
+            if nm.upper() not in iogen.OTHER_NAMES + iomodels.BUFFER_NAMES:
+                iogen.OTHER_NAMES.append(nm.upper())
+    ctx.counters["decoy_names.carried_by_the_code"] += len(carried)
 
     def parse_ilog_data(data, hdr):
         if CUR["slices"] is not None:
